@@ -71,7 +71,8 @@ impl FromStr for DirectiveToken {
             ".data" => Ok(DirectiveToken::Data),
             ".double" => Ok(DirectiveToken::Double),
             ".dword" => Ok(DirectiveToken::Dword),
-            ".endmacro" => Ok(DirectiveToken::EndMacro),
+            // `.end_macro` is the spelling of the RARS assembler
+            ".endmacro" | ".end_macro" => Ok(DirectiveToken::EndMacro),
             ".eqv" => Ok(DirectiveToken::Eqv),
             ".extern" => Ok(DirectiveToken::Extern),
             ".float" => Ok(DirectiveToken::Float),
